@@ -16,10 +16,12 @@ import (
 // A modelled field that was never assigned when the whole value is used makes the literal mention an undeclared local, and the
 // translation fails (MISSING) — the zero value of a field is not modelled.
 type structLocal struct {
-	name     string
-	typeExpr ast.Expr
-	fields   []string        // modelled fields, in declaration order of the model
-	declared map[string]bool // fields whose local exists already
+	zero       bool // every field gets a local with its zero value up front (fields first assigned inside a loop or a branch)
+	name       string
+	typeExpr   ast.Expr
+	fields     []string            // modelled fields, in declaration order of the model
+	declared   map[string]bool     // fields whose local exists already
+	fieldTypes map[string]ast.Expr // Go type expressions of the fields (zero mode)
 }
 
 func (r *structLocal) local(field string) *ast.Ident { return ast.NewIdent(r.name + "_" + field) }
@@ -149,6 +151,18 @@ func (r *structLocal) stmt(s ast.Stmt) []ast.Stmt {
 		keep := &ast.GenDecl{Tok: gd.Tok, TokPos: gd.TokPos, Lparen: gd.Lparen, Rparen: gd.Rparen}
 		for _, sp := range gd.Specs {
 			vs := sp.(*ast.ValueSpec)
+			if len(vs.Names) == 1 && vs.Names[0].Name == r.name && r.zero {
+				// one zero-valued local per modelled field, declared where the struct was
+				for _, f := range r.fields {
+					ft := r.fieldTypes[f]
+					if ft == nil {
+						fail(vs.Pos(), "no declared type for field %s", f)
+					}
+					keep.Specs = append(keep.Specs, &ast.ValueSpec{Names: []*ast.Ident{r.local(f)}, Type: ft})
+					r.declared[f] = true
+				}
+				continue
+			}
 			if len(vs.Names) == 1 && (vs.Names[0].Name == r.name || (vs.Names[0].Name == "err" && len(vs.Values) == 0)) {
 				continue
 			}
@@ -194,6 +208,27 @@ func (r *structLocal) stmt(s ast.Stmt) []ast.Stmt {
 		return []ast.Stmt{&ast.ExprStmt{X: r.expr(x.X)}}
 	case *ast.BlockStmt:
 		return []ast.Stmt{r.block(x)}
+	case *ast.RangeStmt:
+		return []ast.Stmt{&ast.RangeStmt{For: x.For, Key: x.Key, Value: x.Value, TokPos: x.TokPos, Tok: x.Tok, X: r.expr(x.X), Body: r.block(x.Body)}}
+	case *ast.ForStmt:
+		if x.Init != nil && r.mentions(x.Init) || x.Post != nil && r.mentions(x.Post) {
+			fail(x.Pos(), "for statement whose init/post mentions the struct local %s", r.name)
+		}
+		return []ast.Stmt{&ast.ForStmt{For: x.For, Init: x.Init, Cond: r.expr(x.Cond), Post: x.Post, Body: r.block(x.Body)}}
+	case *ast.SwitchStmt:
+		if x.Init != nil {
+			fail(x.Pos(), "switch with an init statement")
+		}
+		out := &ast.SwitchStmt{Switch: x.Switch, Tag: r.expr(x.Tag), Body: &ast.BlockStmt{}}
+		for _, cc := range x.Body.List {
+			c := cc.(*ast.CaseClause)
+			nc := &ast.CaseClause{Case: c.Case, Colon: c.Colon, Body: r.stmts(c.Body)}
+			for _, e := range c.List {
+				nc.List = append(nc.List, r.expr(e))
+			}
+			out.Body.List = append(out.Body.List, nc)
+		}
+		return []ast.Stmt{out}
 	}
 	if r.mentions(s) {
 		fail(s.Pos(), "statement %T mentions the struct local %s", s, r.name)
@@ -203,7 +238,7 @@ func (r *structLocal) stmt(s ast.Stmt) []ast.Stmt {
 
 // rewriteStructLocal returns the body of fd without the struct-typed local `name` (see above), or nil when fd does not
 // declare such a local of a modelled struct type.
-func rewriteStructLocal(p *pkg, fd *ast.FuncDecl, name string) *ast.BlockStmt {
+func rewriteStructLocal(p *pkg, fd *ast.FuncDecl, name string, zero bool) *ast.BlockStmt {
 	var typeExpr ast.Expr
 	ast.Inspect(fd.Body, func(n ast.Node) bool {
 		if vs, ok := n.(*ast.ValueSpec); ok && len(vs.Names) == 1 && vs.Names[0].Name == name && len(vs.Values) == 0 {
@@ -219,6 +254,21 @@ func rewriteStructLocal(p *pkg, fd *ast.FuncDecl, name string) *ast.BlockStmt {
 	if !ok || st == nil || st.fields == nil {
 		fail(fd.Pos(), "the struct local %s is not of a modelled struct type (%s)", name, goTypeName(p, typeExpr))
 	}
-	r := &structLocal{name: name, typeExpr: typeExpr, fields: st.want, declared: map[string]bool{}}
+	r := &structLocal{name: name, typeExpr: typeExpr, fields: st.want, declared: map[string]bool{}, zero: zero, fieldTypes: map[string]ast.Expr{}}
+	if zero {
+		sp, err := loadPkg(st.dir)
+		if err != nil {
+			fail(fd.Pos(), "%v", err)
+		}
+		if ts := sp.typeSpec(st.name); ts != nil {
+			if stt, ok := ts.Type.(*ast.StructType); ok {
+				for _, fl := range stt.Fields.List {
+					for _, n := range fl.Names {
+						r.fieldTypes[n.Name] = fl.Type
+					}
+				}
+			}
+		}
+	}
 	return r.block(fd.Body)
 }
